@@ -734,6 +734,25 @@ func c15Extracts(g *Gen) {
 			}
 		}
 	}
+	// trimming: every byte class around the blank / non-blank border (0x20 / 0x21) at both ends of the label
+	for _, head := range []bool{true, false} {
+		kind, pat := kExTail, `<*>`
+		if head {
+			kind = kExHead
+		}
+		node := &c15Node{Kind: kind, Key: "log", Pat: pat, Num: "100", Dest: "cls"}
+		var recs []*c15Rec
+		for _, v := range c15Enum([]string{" ", "\t", "\x00", "\x1f", "!", "a", "\x7f", "\x80"}, g.Pick(3, 4)) {
+			recs = append(recs, recOf("<"+v+">", "", "", "old"))
+		}
+		for i := 0; i < len(recs); i += 80 {
+			j := i + 80
+			if j > len(recs) {
+				j = len(recs)
+			}
+			c15Emit(g, "trim-enum", one(node), c15Schema, recs[i:j])
+		}
+	}
 	// same key as source and destination
 	c15Emit(g, "extract-samekey", one(&c15Node{Kind: kExHead, Key: "log", Pat: `\[*\]`, Num: "10", Dest: "log"}), c15Schema, []*c15Rec{recOf("[a]b"), recOf("[]b"), recOf("b")})
 }
